@@ -300,8 +300,10 @@ def items_for(prop, tier):
         # irregular source (population mask from the inline-number array): footer arrays keep one value per grid position
         cfgs.append(((5, 26, 5), dict(part='header', holes=(3, 40, 77))))
         cfgs.append(((5, 5, 8), dict(part='trace-header', holes=(7,))))
+        cfgs.append(((5, 9, 1028), dict(part='voxel')))      # more than one 4x4x1024 source block per trace column
         if not quick:
-            cfgs.append(((5, 9, 1028), dict(part='voxel')))      # more than one 4x4x1024 source block per trace column
+            cfgs.append(((5, 9, 1028), dict(part='header')))
+            cfgs.append(((66, 5, 2049), dict(part='voxel')))
         cfgs.append(((5, 5, 8), dict(part='header', stored=())))
         # unsupported inputs must be refused
         cfgs.append(((5, 5, 8), dict(bs=(4, 4, 512), rate=4)))
@@ -309,7 +311,7 @@ def items_for(prop, tier):
         cfgs.append(((5, 5, 8), dict(bs=(64, 64, 4), rate=2)))
         for dims, o in cfgs:
             desc = 'reblock|dims=%s|%s' % ('x'.join(map(str, dims)), ','.join('%s=%s' % kv for kv in sorted(o.items())))
-            it = Item(desc, (lambda dims=dims, o=o: reblock_item(dims, o)), timeout_s=300 if quick else 700)
+            it = Item(desc, (lambda dims=dims, o=o: reblock_item(dims, o)), timeout_s=(120 if dims[2] > 1024 else 300) if quick else 700)
             it.meta = dict(kind='reblock', dims=list(dims), opts=dict(o))
             items.append(it)
     return items
